@@ -26,6 +26,16 @@ type c15Other struct {
 	// shared and reused); Cut > 0 truncates its input at that offset, so that it ends in the middle of a record.
 	SameSchema bool `json:"same_schema,omitempty"`
 	Cut        int  `json:"cut,omitempty"`
+	// Sample > 0: repository sample number Sample instead of Shape/Recs
+	Sample int `json:"sample,omitempty"`
+}
+
+func c15Subject(sample int, s gen.Shape, recs []gen.Rec) (schema string, in []byte, ok bool) {
+	if sample > 0 {
+		sch, in, _, ok := sampleOf(sample)
+		return sch, in, ok
+	}
+	return s.Schema(), s.Render(recs), true
 }
 
 type c15Case struct {
@@ -36,6 +46,8 @@ type c15Case struct {
 	MutRec int        `json:"mut_rec"`
 	MutCol int        `json:"mut_col"` // < NCols: a column; >= NCols: a sub-record value
 	MutSub int        `json:"mut_sub"`
+	// Sample > 0: the measured transform is repository sample number Sample instead of Shape/Recs
+	Sample int `json:"sample,omitempty"`
 }
 
 func genC15(t *rapid.T) c15Case {
@@ -45,19 +57,30 @@ func genC15(t *rapid.T) c15Case {
 		c.Shape.Xform = 4 // output depends on external properties
 	}
 	c.Recs = gen.DrawRecs(t, c.Shape, "r", 0, 6, gen.ValueOpts{})
+	if rapid.IntRange(0, 7).Draw(t, "sampleArm") == 0 {
+		if c.Sample = drawSample(t, "sample"); c.Sample > 0 {
+			_, _, name, _ := sampleOf(c.Sample)
+			c.Shape, c.Recs = gen.Shape{Format: sampleFormat(name)}, nil
+		}
+	}
 	n := rapid.IntRange(0, 5).Draw(t, "nothers")
 	for i := 0; i < n; i++ {
 		o := c15Other{}
 		if rapid.IntRange(0, 2).Draw(t, fmt.Sprintf("o%dsame", i)) == 0 {
 			o.Shape = c.Shape // same schema, other data: fills the same cache keys
+			o.Sample = c.Sample
 			o.SameSchema = rapid.Bool().Draw(t, fmt.Sprintf("o%dsameObj", i))
 			if rapid.Bool().Draw(t, fmt.Sprintf("o%dcut", i)) {
 				o.Cut = rapid.IntRange(1, 400).Draw(t, fmt.Sprintf("o%dcutAt", i))
 			}
+		} else if rapid.IntRange(0, 5).Draw(t, fmt.Sprintf("o%dsample", i)) == 0 {
+			o.Sample = drawSample(t, fmt.Sprintf("o%dsampleNo", i))
 		} else {
 			o.Shape = gen.DrawShape(t, gen.ShapeOpts{})
 		}
-		o.Recs = gen.DrawRecs(t, o.Shape, fmt.Sprintf("o%d", i), 0, 4, gen.ValueOpts{})
+		if o.Sample == 0 {
+			o.Recs = gen.DrawRecs(t, o.Shape, fmt.Sprintf("o%d", i), 0, 4, gen.ValueOpts{})
+		}
 		c.Others = append(c.Others, o)
 	}
 	c.Child = rapid.IntRange(0, 2).Draw(t, "child") == 0
@@ -145,9 +168,14 @@ func c15RunChild(schema string, in []byte) ([]run.Step, error) {
 }
 
 func checkC15(c c15Case) obs.Result {
-	schema := c.Shape.Schema()
-	in := c.Shape.Render(c.Recs)
+	schema, in, ok := c15Subject(c.Sample, c.Shape, c.Recs)
+	if !ok {
+		return obs.Result{Excluded: "no such sample"}
+	}
 	classes := []string{"format=" + c.Shape.Format, fmt.Sprintf("xform=%d", c.Shape.Xform)}
+	if c.Sample > 0 {
+		classes = append(classes, "repo-sample")
+	}
 	shared, err := run.NewSchema(schema)
 	if err != nil {
 		return obs.Result{Excluded: "schema rejected: " + err.Error()}
@@ -169,7 +197,10 @@ func checkC15(c c15Case) obs.Result {
 	// other transforms in the same process: fill pools and caches, advance the ID counter; some of them use the
 	// very same Schema object, some of those on an input that ends in the middle of a record
 	for _, o := range c.Others {
-		oin := o.Shape.Render(o.Recs)
+		oschema, oin, ok := c15Subject(o.Sample, o.Shape, o.Recs)
+		if !ok {
+			continue
+		}
 		if o.Cut > 0 && len(oin) > 0 {
 			oin = oin[:o.Cut%len(oin)]
 		}
@@ -183,7 +214,7 @@ func checkC15(c c15Case) obs.Result {
 			}
 			continue
 		}
-		if _, err := c15Run(o.Shape.Schema(), oin); err != nil {
+		if _, err := c15Run(oschema, oin); err != nil {
 			return obs.Result{Excluded: "other transform has no terminal result"}
 		}
 	}
@@ -272,7 +303,7 @@ func checkC15(c c15Case) obs.Result {
 	if c.Shape.Xform > 0 {
 		keys += 3
 	}
-	nt := nrec >= 2 && keys >= 3 && len(c.Others) >= 1
+	nt := nrec >= 2 && (keys >= 3 || c.Sample > 0) && len(c.Others) >= 1
 	return obs.OK(nt, classes...)
 }
 
